@@ -22,7 +22,7 @@ for m in rows:
         nm += 1
     L.append("| %s | %s | %s | %s | %s |" % (m["property"], m["name"], "yes" if m.get("confirmed") else "**no**",
                                         ("caught: " + "; ".join(own.get("signatures", [])[:2])) if own.get("caught") else "**MISSED** (exit %s)" % own.get("exit"),
-                                        ", ".join(others)))
+                                        ", ".join(others) + ((" - " + m["remark"]) if m.get("remark") else "")))
 L += ["", "%d changes; caught by the property's own check: %d; missed: %d" % (len(rows), nc, nm)]
 open(os.path.join(ROOT, "seeded", "README.md"), "w").write("\n".join(L) + "\n")
 print(L[-1])
